@@ -320,7 +320,9 @@ def histories(maxlen_, ops):
     return rec([], 1)
 
 
-def run_history(h):
+def run_history(h, aggregate_links=False):
+    """aggregate_links: model of the code as it is (known finding): the result of aggregate is linked to the aggregated list like a
+    list that hands on its items, although it shares none"""
     root = ListOfDicts([{"a": 1, "b": 2}, {"a": 0, "b": 3}])
     lists, parent, model_obs = [root], [None], [False]
     warned = [False]
@@ -333,6 +335,10 @@ def run_history(h):
             if op == "deepcopy":
                 new = recv.deepcopy()
                 parent.append(None)
+            elif op == "aggregate":
+                # grouping and summarising neither edits the receiver's items nor hands them on: the result is a new, independent list
+                new = recv.group_by("a").aggregate(n=len, bs=lambda x: x.pluck("b"))
+                parent.append(i if aggregate_links else None)
             elif op in SHARE_OPS:
                 new = SHARE_OPS[op](recv)
                 parent.append(i)
@@ -354,14 +360,24 @@ def run_history(h):
 @driver("dataiter/list_of_dicts.py::ListOfDicts._mark_obsolete")
 def history_driver(run):
     depth = 4 if run.tier == "thorough" else 3
-    ops = ["filter", "sort", "copy", "deepcopy", "modify", "unselect", "select", "filter_none", "append"]
+    ops = ["filter", "sort", "copy", "deepcopy", "modify", "unselect", "select", "filter_none", "append", "aggregate", "head"]
     if run.tier == "thorough":
-        ops += ["head", "reverse", "fill", "modify_if", "slice"]
+        ops += ["reverse", "fill", "modify_if", "slice"]
     run.bound = f"all derivation histories of <= {depth} calls over {len(ops)} methods from one 2-item list"
     for (h,) in run.inputs(((h,) for h in histories(depth, ops))):
         h = [tuple(x) for x in h]
         lists, parent, model = run_history(h)
         got = [bool(object.__getattribute__(x, "_obsolete")) for x in lists]
+        if got != model and any(op == "aggregate" for _, op in h):
+            # does the history behave like the KNOWN finding (an edit of an aggregate result also marks the aggregated list and its
+            # ancestors)?  then it is reported under its own clause - any other discrepancy stays under the general clause
+            lists, parent, linked = run_history(h, aggregate_links=True)
+            got2 = [bool(object.__getattribute__(x, "_obsolete")) for x in lists]
+            if got2 == linked:
+                run.check([h], False, expected=model, got=got2, clause="an edit of an aggregate result marks the aggregated list (which shares no item with it) and its ancestors obsolete")
+                continue
+            lists, parent, model = run_history(h)
+            got = [bool(object.__getattribute__(x, "_obsolete")) for x in lists]
         run.check([h], got == model, expected=model, got=got, clause="obsolete exactly for receiver+ancestors of an edit")
         run.check([h], run_history.printed == sum(run_history.warned), expected=sum(run_history.warned),
                   got=run_history.printed, clause="one warning per obsolete list used during the history")
@@ -390,13 +406,16 @@ def deepcopy_driver(run):
         ok = ok and plain(data) == before and not object.__getattribute__(data, "_obsolete")
         run.check([l, op], ok, expected=before, got=plain(data), clause="edits through a deep copy are invisible in the original")
         # values nested inside an item (JSON-like data) are copied too: an edit of a nested dict / list of the copy stays in the copy
-        nested = mk([dict(x, n={"u": [1, 2]}, m=[{"v": 0}]) for x in l])
+        nested = mk([dict(x, n={"u": [1, 2]}, m=[{"v": 0}], t=({"w": 0}, [1], bytearray(b"ab"))) for x in l])
         nb = copy.deepcopy(plain(nested))
         c2 = nested.deepcopy()
         for item in c2:
             item["n"]["u"].append(3)
             item["n"]["w"] = 1
             item["m"][0]["v"] = 9
+            item["t"][0]["w"] = 5              # mutable values inside a tuple
+            item["t"][1].append(2)
+            item["t"][2].extend(b"c")
         run.check([l, op], plain(nested) == nb, expected=nb, got=plain(nested), clause="nested values of a deep copy are not shared with the original")
 
 
@@ -695,15 +714,16 @@ def lod_aggregate_driver(run):
 @driver(LP + "inner_join[right items hold only the key]")
 def lod_join_key_only(run):
     ml_ = 3 if run.tier == "thorough" else 2
-    run.bound = f"pairs of lists of <= {ml_} items, key in {{None,0,1}}; right items are key-only or carry one payload entry; left / inner / semi / anti join, same-named and renamed key"
+    run.bound = f"pairs of lists of <= {ml_} items, key in {{None,0,1}}; right items are key-only, carry one payload entry, or one that collides with a left entry; left / inner / semi / anti / full join; same-named key, renamed key as tuple and as list"
     def rights(rk):
-        opts = [{rk: v} for v in (None, 0, 1)] + [{rk: 0, "q": 7}]
+        opts = [{rk: v} for v in (None, 0, 1)] + [{rk: 0, "q": 7}, {rk: 1, "p": 99}]     # "p" collides with a non-key entry of the left items
         for n in range(ml_ + 1):
             for combo in itertools.product(range(len(opts)), repeat=n):
                 yield [dict(opts[c]) for c in combo]
-    gen = ((a, b, rk) for rk in ("k", "k2") for a in keyed_lists(ml_) for b in rights(rk))
+    gen = ((a, b, rk) for rk in ("k", "k2", "k2 as list") for a in keyed_lists(ml_) for b in rights(rk.split()[0]))
     for a, b, rk in run.inputs(gen):
-        by = "k" if rk == "k" else ("k", "k2")
+        by = "k" if rk == "k" else ("k", "k2") if rk == "k2" else ["k", "k2"]       # a (left, right) pair may be given as a list
+        rk = rk.split()[0]
 
         def first(i):
             for j, y in enumerate(b):
@@ -721,6 +741,12 @@ def lod_join_key_only(run):
                 ok = ok and plain(mk(a).semi_join(Bl, by)) == [a[i] for i in range(len(a)) if m[i] is not None]
                 ok = ok and plain(mk(a).anti_join(Bl, by)) == [a[i] for i in range(len(a)) if m[i] is None]
                 ok = ok and plain(Bl) == b
+                full = plain(mk(a).full_join(mk(b), by))       # must answer for every form of the key pair
+                if not any("p" in y for y in b):               # (which side wins a colliding non-key name in a full join is not specified)
+                    ok = ok and all(any(g.get("p") == x["p"] and g.get("k") == x["k"] for g in full) for x in a)
+                    for y in b:      # every right item at least once (its key value under the left or the right name)
+                        ok = ok and any((g.get("k", g.get(rk)) == y[rk] or g.get(rk) == y[rk]) and all(g.get(kk) == vv for kk, vv in y.items() if kk != rk)
+                                        for g in full)
                 obs = plain(mk(a).inner_join(mk(b), by))
         except Exception as e:
             ok, obs = False, f"raised {type(e).__name__}: {e}"
